@@ -121,6 +121,8 @@ def unary_exprs(t):
     for wh in ('unsigned', 'signed', 'bitvector'):
         out.append(('view', wh, a))
     out += [('un', '~', a), ('un', 'not', a), ('un', 'bool', a)]
+    for nf in ('Null', 'Full'):
+        out += [('cmp', '==', a, ('nf', nf)), ('cmp', '!=', a, ('nf', nf))]
     if k in ('u', 's'):
         out.append(('un', 'neg', a))
         for n in (w, w + 1, w + 3):
